@@ -102,6 +102,26 @@ From IpfsLog Require Import Model.ExampleHist Proofs.WfBool.
 Example C05_nonvacuous : wf (firstn 9 ex_hist ++ skipn 9 ex_hist) /\ length (s_logs (run (firstn 9 ex_hist))) = 3%nat.
 Proof. split; [apply wfb_wf; vm_compute; reflexivity|reflexivity]. Qed.
 
+(* Known finding K5: the subsequence clause FAILS for a log opened through NewLog with Entries and Heads
+   when a given head is named by another supplied entry (a log opened "at an earlier head" of a complete
+   entry cache).  The model reproduces what the implementation does: the view [e1 e2] becomes [peer]
+   after an unbounded merge of an unrelated one-entry log, with all four entries still held.  No log
+   made by appends, merges, loaders or re-opening without explicit heads has such a head
+   (C16_reopened_logs_are_logs: heads are exactly the unreferenced entries). *)
+Example C05_opened_at_earlier_head_refuted :
+  let e1 := mkEntry 101%N 1%N 1%N [] [] 1 10%N 10%N true in
+  let e2 := mkEntry 102%N 1%N 2%N [101%N] [] 2 10%N 10%N true in
+  let e3 := mkEntry 103%N 1%N 3%N [102%N] [] 3 10%N 10%N true in
+  let p := mkEntry 201%N 1%N 4%N [] [] 1 20%N 20%N true in
+  let older := new_log_from 1%N 30%N SLww [] (from_entries [e1; e2; e3]) [e2] in
+  let peer := new_log_from 1%N 20%N SLww [] (from_entries [p]) [] in
+  let after := join older peer false (-1) in
+  option_map okeys (values older) = Some [101; 102]%N /\
+  snd after = Ok tt /\
+  option_map okeys (values (fst after)) = Some [201]%N /\
+  length (l_entries (fst after)) = 4%nat.
+Proof. vm_compute. repeat split; reflexivity. Qed.
+
 Print Assumptions C05_entries_never_vanish.
 Print Assumptions C05_merge_of_any_log_keeps_held_entries.
 Print Assumptions C05_other_replicas_untouched.
@@ -109,3 +129,4 @@ Print Assumptions C05_monotone_over_histories.
 Print Assumptions C05_values_subsequence.
 Print Assumptions C05_nonvacuous.
 Print Assumptions C05_merge_of_any_log_keeps_held_entries_reopened.
+Print Assumptions C05_opened_at_earlier_head_refuted.
